@@ -1472,6 +1472,58 @@ _resource_tracker""")),
         self._result_queue = None
         self._processes_management_lock = None""", """        self._processes_management_lock = None""")),
 
+    # ------------------------------------------- inspired by seeded changes (8.5)
+    M("clear-wakeup-at-end-of-iteration", ["C01", "C05"], ["R-WAKE-CLEAR"],
+      (PE, """                    self.join_executor_internals()
+                    return
+
+    def add_call_item_to_queue(self):""", """                    self.join_executor_internals()
+                    return
+
+            self.thread_wakeup.clear()
+
+    def add_call_item_to_queue(self):"""),
+      (PE, """        self.thread_wakeup.clear()
+
+        return result_item, is_broken, bpe""", """        return result_item, is_broken, bpe""")),
+    M("clear-wakeup-before-wait", ["C01"], ["R-WAKE-CLEAR"],
+      (PE, """        worker_sentinels = [p.sentinel for p in list(self.processes.values())]
+        ready = wait(readers + worker_sentinels)""", """        worker_sentinels = [p.sentinel for p in list(self.processes.values())]
+        self.thread_wakeup.clear()
+        ready = wait(readers + worker_sentinels)"""),
+      (PE, """        self.thread_wakeup.clear()
+
+        return result_item, is_broken, bpe""", """        return result_item, is_broken, bpe""")),
+    M("running-registered-after-put", ["C04"], ["R-FEEDER-HOOK"],
+      (PE, """                    self.running_work_items += [work_id]
+                    self.call_queue.put(""", """                    self.call_queue.put("""),
+      (PE, """                        block=True,
+                    )
+                else:""", """                        block=True,
+                    )
+                    self.running_work_items += [work_id]
+                else:""")),
+    M("sentinel-loop-stops-at-alive-count", ["C05"], ["R-SHUTDOWN-SEQ"],
+      (PE, """            and self.get_n_children_alive() > 0""", """            and self.get_n_children_alive() > n_sentinels_sent""")),
+    M("respawn-not-after-shutdown", ["C07", "C05"], ["R-RESPAWN-GUARD"],
+      (PE, """                    executor is not None
+                    and len(self.processes) < executor._max_workers""", """                    executor is not None
+                    and not self.executor_flags.shutdown
+                    and len(self.processes) < executor._max_workers""")),
+    M("submit-top-up-before-registration", ["C07", "C08"], ["R-SPAWN-SITE"],
+      (PE, """            f = Future()
+            w = _WorkItem(f, fn, args, kwargs)
+""", """            self._ensure_executor_running()
+            f = Future()
+            w = _WorkItem(f, fn, args, kwargs)
+"""),
+      (PE, """            self._executor_manager_thread_wakeup.wakeup()
+
+            self._ensure_executor_running()
+            # Wake up the queue management thread again""", """            self._executor_manager_thread_wakeup.wakeup()
+
+            # Wake up the queue management thread again""")),
+
 ]
 
 
